@@ -1543,8 +1543,21 @@ func underCASGuard(p *Prog, f *FuncInfo, n ast.Node) bool {
 			}
 			break
 		}
-		if call, ok := e.(*ast.CallExpr); ok && pos {
-			if fn := callee(in, call); fn != nil && strings.HasPrefix(fn.Name(), "CompareAndSwap") {
+		if pos {
+			// the result of the compare-and-swap may be kept in a local (won := CompareAndSwap(..); if won {..})
+			srcs := resolveLocalExpr(in, f, e)
+			all := len(srcs) > 0
+			for _, src := range srcs {
+				call, ok := unparen(src).(*ast.CallExpr)
+				if !ok {
+					all = false
+					continue
+				}
+				if fn := callee(in, call); fn == nil || !strings.HasPrefix(fn.Name(), "CompareAndSwap") {
+					all = false
+				}
+			}
+			if all {
 				return true
 			}
 		}
